@@ -126,6 +126,10 @@ theorem execSimple_adv (s : State) (fields : List String) (here : Option (List C
       simp only [execUtil, execSet]
       split <;> first | (rw [setOption_desc]; exact Adv.refl _) | exact Adv.refl _
     | cat => exact execCat_adv _ _
+    | closein =>
+      have := setStdin_adv s s.stdin [] (by simp)
+      simp only [execUtil, execClose]
+      exact this
     | unknown => exact Adv.refl _
 
 /-- `perform_redirs` followed by `undo_redirs` of what it saved: exactly the state before -/
@@ -294,6 +298,11 @@ theorem loop_stdin (n : Nat) (s : State) (log : List Iter) (h : (loop n s log).2
         · simp only [ha] at h ⊢
           exact h1.trans (ih _ _ h)
       · simp [hfin] at h
+
+
+/-- the parser on an empty text at end of input: no command (`Ok(None)`) -/
+theorem parse_nothing (s : State) : parserOf s true [] = .none := by
+  simp [parserOf, parseLine, toChars, decodeGo, lexAll, lexGo, LState.endWord, pList, substAlias]
 
 
 end YashModel.Input
